@@ -106,6 +106,16 @@ def strconvUnquote (s : Bytes) : Bytes × Option Unit :=
   | some v => (v, none)
   | none => ([], some ())
 
+/-- `strings.Replace(s, old, new, -1)` for a non-empty `old` -/
+def stringsReplaceAllFuel (old new : Bytes) : Nat → Bytes → Bytes
+  | 0, s => s
+  | _ + 1, [] => []
+  | fuel + 1, a :: s =>
+    if hasPrefix (a :: s) old then new ++ stringsReplaceAllFuel old new fuel ((a :: s).drop old.length)
+    else a :: stringsReplaceAllFuel old new fuel s
+
+def stringsReplaceAll (s old new : Bytes) : Bytes := stringsReplaceAllFuel old new s.length s
+
 /-- a construct the translator does not cover: any theorem about the function stops checking -/
 structure Untranslatable where
   reason : String
